@@ -10,6 +10,9 @@ else:
     raise SystemExit('no such property')
 wt = '/tmp/wt/%s' % pid
 out = '/tmp/wt/out-%s' % pid
+import os
+taken = json.load(open("/tmp/taken.json")).get(pid, []) if os.path.exists("/tmp/taken.json") else []
+note = ("Other testers have already delivered changes for this property in these places; pick DIFFERENT functions/mechanisms: " + "; ".join(taken) + ". Never use `git stash` (the stash is shared between worktrees): to get back to a clean tree run `git checkout -- .` inside your own worktree after saving your diff to a file.") 
 print(f"""You are helping test a verification effort for the Python library svgpathtools (pure-Python SVG path geometry).
 A scratch git worktree of the library is at {wt} (package directory {wt}/svgpathtools, tests in {wt}/test).
 Work ONLY inside {wt} and {out}. Never read or write /repo or /verif (they are off limits), and do not create other git worktrees.
@@ -38,4 +41,5 @@ For EACH change k in (1, 2) deliver in {out}/:
  - {out}/m<k>/demo.py : a small standalone program that exits 0 and prints PASS when the property holds on the inputs it tries, and exits 1 printing FAIL (with the offending input/values) when it does not. It must FAIL with your change applied and PASS on the unchanged tree. It is run as: cd <tree> && PYTHONPATH=<tree> /venv/bin/python {out}/m<k>/demo.py  (PYTHONPATH is what selects the tree: a script's own directory, not the cwd, is first on sys.path; the demo itself must not hard-code any tree path)
  - {out}/m<k>/meta.json : {{"property": "{p['id']}", "summary": "<one line: what was changed>", "file": "<file>", "function": "<function or method>", "needs": "<what is needed for the violation to manifest>", "suite": "<the pytest summary line you observed with the change applied>"}}
 Before finishing, verify for each change yourself: suite at baseline with the change; demo FAILS with the change; demo PASSES without it. Leave the worktree clean at the end (git -C {wt} checkout -- .).
+{note}
 Final answer: a short report listing the two changes (file, function, what, why tests miss it, what triggers it).""")
